@@ -224,6 +224,29 @@ def run(chk):
         if gt.well_conditioned(mb, Xkept) and not (np.allclose(La, Lb, rtol=1e-9, atol=1e-9) and np.allclose(ma.means, mb.means, rtol=1e-8, atol=1e-10)):
             chk.fail("training on a Dask array with unknown row-chunk sizes differs from training on the same rows in memory (reported %s vs %s)" % (La, Lb),
                      {"X": hexlist(X), "kept_rows": keep.tolist(), "shape": [C, D], "w": hexlist(w), "mu": hexlist(mu), "var": hexlist(var)})
+    # ---- the iteration cap given as a NumPy integer (what a machine restored from a file carries): honoured like the built-in int
+    import os as _os, tempfile as _tf
+    from ..impl import GMMMachine as _GMM
+    for j in range(3 if chk.tier == "quick" else 30):
+        w, mu, var, s, X = gt.gen_training(r, C=2, N=12, scale="unit")
+        capn = r.choice([1, 2, 3])
+        # (a threshold of 1e-9 is far below the changes of the first three iterations, so the cap decides; it only makes sure that training ends
+        #  by itself should the cap be ignored)
+        ref_m, _ = gt.build_machine(dict(w=w, mu=mu, var=var, thr=None, sw=(True, True, True), eps=eps, cap=capn, cthr=1e-9))
+        nref, _, _ = gt.run_fit(ref_m, X)
+        mn, _ = gt.build_machine(dict(w=w, mu=mu, var=var, thr=None, sw=(True, True, True), eps=eps, cap=capn, cthr=1e-9))
+        mn.max_fitting_steps = np.int64(capn)
+        with _tf.TemporaryDirectory() as td_:
+            path_ = _os.path.join(td_, "m.h5")
+            ms, _ = gt.build_machine(dict(w=w, mu=mu, var=var, thr=None, sw=(True, True, True), eps=eps, cap=capn, cthr=1e-9))
+            ms.save(path_)
+            ml_ = _GMM.from_hdf5(path_)
+        for nm_, mm_ in (("numpy.int64 cap", mn), ("machine restored from a file", ml_)):
+            nn_, _, _ = gt.run_fit(mm_, X)
+            chk.count(1, key=("cap type", nm_))
+            if not (nn_ == nref and np.allclose(mm_.means, ref_m.means, rtol=1e-10, atol=1e-12)):
+                chk.fail("max_fitting_steps = %d (%s): training performed %d iterations instead of %d" % (capn, nm_, nn_, capn),
+                         {"X": hexlist(X), "w": hexlist(w), "mu": hexlist(mu), "var": hexlist(var), "cap": capn, "how": nm_})
     # ---- the same training values in other containers / memory layouts (Fortran order, strided views, read-only memory, nested lists)
     for j in range(3 if chk.tier == "quick" else 30):
         w, mu, var, s, X = gt.gen_training(r, C=2, N=12, scale="unit")
